@@ -148,7 +148,7 @@ EDITS = [
     ("H12 the maintainers' complete refactoring of node_analysis.py (/verif/seeded/harmless/H1/patch.diff)", 'passes',
      [('PATCH', '/verif/seeded/harmless/H1/patch.diff', None, None)]),
     ("H13 the maintainers' refactoring of state_space_model.py (/verif/seeded/harmless/H3/patch.diff): its loop / block / slice "
-     "rewrites are H08-H10; the new method _row_for_voltage takes a Callable parameter, outside the subset (fail-closed: expected to be flagged)", 'caught',
+     "rewrites are H08-H10; the new method _row_for_voltage takes a Callable parameter (accepted since the subset was widened)", 'passes',
      [('PATCH', '/verif/seeded/harmless/H3/patch.diff', None, None)]),
     ("H11 element_impedance: keyword arguments reordered", 'passes',
      [(NA, "        network=trf.remove_element(network, element),\n        node1=network[element].node1,\n        node2=network[element].node2,\n        node_index_mapper=node_index_mapper\n",
